@@ -272,6 +272,11 @@ def restHas : List TSpec → Bool
     | .iface es => ifaceTest es || restHas r
     | _ => restHas r
 
+/-- a predeclared non-integer type (no declaration of that name in the package): constants typed with it make makeStr stop
+    ("can't handle non-integer constant type") -/
+def predeclNonInt (n : String) : Bool :=
+  ["string", "bool", "float32", "float64", "complex64", "complex128"].contains n
+
 def makeData (cmd : Cmd) (pkg : Pkg) (specified : Bool) (n : String) : Except Stop Bool :=
   let ts := namedSpecs pkg n
   match cmd with
@@ -286,7 +291,7 @@ def makeData (cmd : Cmd) (pkg : Pkg) (specified : Bool) (n : String) : Except St
     -- (with a warning "no constants of type … found" when the type was named: `skipWarn`)
     if ts.any (·.alias) then throw .fatal
     else if (constsOf n pkg).isEmpty then pure false
-    else if ts.any nonIntUnder then throw .fatal
+    else if ts.any nonIntUnder || (ts.isEmpty && predeclNonInt n) then throw .fatal
     else pure true
   | .rest =>
     -- hasClient: no RestClient interface of that name -> Fatal "is not an interface embedding shoot.RestClient"
